@@ -95,6 +95,11 @@ def gen_insert(eng, rng, n, target="main"):
         # (style names are unique per family across common and automatic styles in ODF:
         # the two kinds draw from disjoint pools; both pools repeat across families)
         pool = ["simA", "simB", "Standard", "Heading_20_1"] if kind != "automatic" else ["P1", "T1", "odfdo_auto_2", "odfdo_auto_7", "ta1"]
+        # simX / simY: common names in the receiving document that the other document may hold as
+        # automatic styles of its styles.xml (each document valid on its own); once such a style has
+        # been merged in, giving a common style that name again would be the caller's mistake
+        if kind != "automatic" and target == "main" and "merged_styles_xml_automatic" not in eng.flags:
+            pool = pool + ["simX", "simY"]
         if fam == "font-face":
             # font faces are declared per part (content.xml and styles.xml each have their
             # own office:font-face-decls, usually with the same names): separate pools, so
